@@ -208,7 +208,7 @@ def spec_check(c, resp):
             seq = as_seq(x)
             keyf = (lambda v: prop(v, show_value(args[0]))) if args else (lambda v: v)
             ks = [keyf(v) for v in seq]
-            if any(nsc(a, b) is None for a in ks for b in ks):
+            if "total order" in str(got) and any(nsc(a, b) is None for a in ks for b in ks):     # only std's own detection of a non-total comparator is the recorded finding
                 return {"what": "sort panicked on elements that are not mutually comparable", "input": inp, "observed": got, "key": "sort-incomparable"}
         return {"what": "array filter panicked", "input": inp, "observed": got}
     if len(c["chain"]) == 2:
